@@ -1,0 +1,19 @@
+//go:build verif
+
+// Contracts for package stream_srpc_server, checked by /verif (bfvc). Comment-only.
+package stream_srpc_server
+
+// C34: the RPC server takes a stream only for one of its protocol IDs and,
+// when a peer list is configured, only for a listed local peer (base58 form).
+
+//@ func (*Server).ResolveHandleMountedStream
+//@   noframe
+//@   ensures ret0 != nil ==> dir.HandleMountedStreamProtocolID() in s.protocolIDs
+//@   ensures ret0 != nil ==> len(s.peerIDs) == 0 || b58enc(dir.HandleMountedStreamLocalPeerID()) in s.peerIDs
+//@   loop 1 invariant match ==> inPeerIDString in s.peerIDs
+
+//@ func (*Server).HandleDirective
+//@   noframe
+//@   ensures ret0 != nil ==> implements(di.GetDirective(), link.HandleMountedStream)
+//@   ensures ret0 != nil ==> as(di.GetDirective(), link.HandleMountedStream).HandleMountedStreamProtocolID() in s.protocolIDs
+//@   ensures ret0 != nil ==> len(s.peerIDs) == 0 || b58enc(as(di.GetDirective(), link.HandleMountedStream).HandleMountedStreamLocalPeerID()) in s.peerIDs
